@@ -164,7 +164,13 @@ func (cs caseT) build() (sc.Case, *gen.Node) {
 
 func (cs caseT) check() lib.Res {
 	c, _ := cs.build()
-	_, r := lib.Check(c.Spec())
+	s, r := lib.Check(c.Spec())
+	// the verdict of the schema is the verdict of every Check on it
+	if r.Panic == "" && s != nil {
+		if r2 := lib.Recheck(s); r2.OK != r.OK {
+			return lib.Res{Panic: fmt.Sprintf("Check is not stable on one schema object: first %s, second %s", r, r2)}
+		}
+	}
 	return r
 }
 
